@@ -6,6 +6,7 @@ git apply --check "$patch" || { echo "patch does not apply"; exit 2; }
 git apply "$patch"
 trap 'git -C /repo checkout -- . ' EXIT
 cd /verif
+export VERIF_EVIDENCE_DIR=/var/tmp/deltio-seed-evidence
 for id in "$@"; do
   out=$(./check "$id" ${TIER:-quick} 2>&1 | grep -v conda); code=$?
   echo "== $id exit=$(echo "$out" | tail -1 | grep -q '^OK' && echo 0 || echo nonzero)"
